@@ -1,10 +1,623 @@
 package main
 
 import (
-	_ "golang.org/x/tools/go/packages"
-	_ "golang.org/x/tools/go/ssa"
-	_ "golang.org/x/tools/go/ssa/ssautil"
-	_ "golang.org/x/tools/go/types/typeutil"
+	"encoding/json"
+	"flag"
+	"fmt"
+	"os"
+	"os/exec"
+	"path/filepath"
+	"regexp"
+	"runtime"
+	"sort"
+	"strconv"
+	"strings"
+	"time"
+
+	"golang.org/x/tools/go/ssa"
 )
 
-func main() {}
+var verifDir = "/verif"
+
+func main() {
+	prop := flag.String("prop", "", "property id (C01..C20)")
+	tier := flag.String("tier", "quick", "quick|thorough")
+	repo := flag.String("repo", "/repo", "repository directory")
+	only := flag.String("only", "", "substring filter on harness function names")
+	verbose := flag.Bool("v", false, "verbose")
+	workers := flag.Int("j", runtime.NumCPU(), "workers")
+	replay := flag.String("replay", "", "replay a counterexample file natively")
+	noReplay := flag.Bool("noreplay", false, "do not replay counterexamples natively")
+	vdir := flag.String("verif", "/verif", "verif directory")
+	noEvidence := flag.Bool("noevidence", false, "do not write the evidence file")
+	selftest := flag.Bool("selftest", false, "run only the engine self-test")
+	flag.Parse()
+	verifDir = *vdir
+	seed := int64(0)
+	if s := os.Getenv("VERIF_SEED"); s != "" {
+		seed, _ = strconv.ParseInt(s, 10, 64)
+	}
+	if t := os.Getenv("VERIF_TIER"); t != "" && *tier == "" {
+		*tier = t
+	}
+	scratch, err := os.MkdirTemp("", "gosmt-")
+	if err != nil {
+		fatal(2, "mktemp: %v", err)
+	}
+	defer os.RemoveAll(scratch)
+
+	if *replay != "" {
+		var v Violation
+		b, err := os.ReadFile(*replay)
+		if err != nil {
+			fatal(2, "read replay: %v", err)
+		}
+		if err := json.Unmarshal(b, &v); err != nil {
+			fatal(2, "parse replay: %v", err)
+		}
+		ov, _, err := buildOverlay(*repo, scratch)
+		if err != nil {
+			fatal(2, "%v", err)
+		}
+		ok, out := nativeReplay(*repo, scratch, ov, &v)
+		fmt.Println(out)
+		if ok {
+			fmt.Printf("REPRODUCED %s %s\n", v.Harness, v.ID)
+			os.Exit(1)
+		}
+		fmt.Printf("NOT-REPRODUCED %s %s\n", v.Harness, v.ID)
+		os.Exit(0)
+	}
+
+	if *prop == "" && !*selftest {
+		fatal(2, "need -prop")
+	}
+	t0 := time.Now()
+	spec, err := loadSpec(*prop)
+	if err != nil && !*selftest {
+		fatal(2, "spec: %v", err)
+	}
+	ov, pkgDirs, err := buildOverlay(*repo, scratch)
+	if err != nil {
+		fatal(2, "%v", err)
+	}
+	patterns := []string{"."}
+	for d := range pkgDirs {
+		if d != "." {
+			patterns = append(patterns, "./"+d)
+		}
+	}
+	sort.Strings(patterns)
+	p, err := LoadProgram(*repo, ov, patterns, scratch)
+	if err != nil {
+		inconclusive(*prop, *tier, seed, "load: "+err.Error(), *noEvidence)
+	}
+	tLoad := time.Since(t0)
+	if err := p.runInits(*verbose); err != nil {
+		inconclusive(*prop, *tier, seed, "init: "+err.Error(), *noEvidence)
+	}
+	tInit := time.Since(t0) - tLoad
+	if *verbose {
+		fmt.Fprintf(os.Stderr, "load %.1fs init %.1fs base objects %d\n", tLoad.Seconds(), tInit.Seconds(), len(p.baseHeap))
+	}
+	stN, stErr := p.selfTest(*repo, scratch, ov, seed, *verbose)
+	if stErr != nil {
+		inconclusive(*prop, *tier, seed, "engine self-test failed: "+stErr.Error(), *noEvidence)
+	}
+	if *selftest {
+		fmt.Printf("self-test ok: %d vectors\n", stN)
+		return
+	}
+	results := runProperty(p, spec, RunOptions{Prop: *prop, Tier: *tier, Workers: *workers, Only: *only, Verbose: *verbose, Seed: seed})
+	code := report(p, spec, results, *prop, *tier, seed, *repo, scratch, ov, t0, stN, *noReplay, *noEvidence || *only != "")
+	os.RemoveAll(scratch)
+	os.Exit(code)
+}
+
+func fatal(code int, f string, a ...interface{}) {
+	fmt.Fprintf(os.Stderr, f+"\n", a...)
+	os.Exit(code)
+}
+
+func inconclusive(prop, tier string, seed int64, reason string, noEv bool) {
+	fmt.Printf("INCONCLUSIVE property=%s reason=%s\n", prop, strings.ReplaceAll(reason, "\n", " | "))
+	os.Exit(2)
+}
+
+func loadSpec(prop string) (*PropSpec, error) {
+	b, err := os.ReadFile(filepath.Join(verifDir, "harness", "spec", prop+".json"))
+	if err != nil {
+		return nil, err
+	}
+	var s PropSpec
+	if err := json.Unmarshal(b, &s); err != nil {
+		return nil, err
+	}
+	return &s, nil
+}
+
+var pkgClause = regexp.MustCompile(`(?m)^package\s+(\w+)`)
+
+// buildOverlay maps harness files into the repository tree (virtually).
+// /verif/harness/src/<dir>/*.go  ->  <repo>/<dir>/zz_verif_<file>     (dir "root" = repository root)
+func buildOverlay(repo, scratch string) (map[string][]byte, map[string]string, error) {
+	ov := map[string][]byte{}
+	pkgDirs := map[string]string{} // repo-relative dir -> package name
+	src := filepath.Join(verifDir, "harness", "src")
+	tmpl, err := os.ReadFile(filepath.Join(verifDir, "harness", "vh.go.tmpl"))
+	if err != nil {
+		return nil, nil, err
+	}
+	err = filepath.Walk(src, func(path string, info os.FileInfo, err error) error {
+		if err != nil || info.IsDir() || !strings.HasSuffix(path, ".go") {
+			return err
+		}
+		rel, _ := filepath.Rel(src, path)
+		dir := filepath.Dir(rel)
+		if strings.HasPrefix(dir, "root") {
+			dir = "." + strings.TrimPrefix(dir, "root")
+		}
+		dir = filepath.Clean(dir)
+		b, err := os.ReadFile(path)
+		if err != nil {
+			return err
+		}
+		m := pkgClause.FindSubmatch(b)
+		if m == nil {
+			return fmt.Errorf("%s: no package clause", path)
+		}
+		pkgDirs[dir] = string(m[1])
+		ov[filepath.Join(repo, dir, "zz_verif_"+filepath.Base(path))] = b
+		return nil
+	})
+	if err != nil {
+		return nil, nil, err
+	}
+	for dir, name := range pkgDirs {
+		ov[filepath.Join(repo, dir, "zz_verif_vh.go")] = []byte(strings.Replace(string(tmpl), "package PKG", "package "+name, 1))
+	}
+	return ov, pkgDirs, nil
+}
+
+// ---------- init ----------
+
+var stdInitDeny = map[string]bool{
+	"runtime": true, "os": true, "syscall": true, "reflect": true, "sync": true, "unsafe": true, "internal/poll": true,
+	"net": true, "crypto/tls": true, "crypto/x509": true, "net/http": true, "os/signal": true, "os/exec": true, "os/user": true,
+	"testing": true, "flag": true, "log": true, "internal/godebug": true, "crypto/rand": true, "math/rand": true, "math/rand/v2": true,
+	"internal/cpu": true, "internal/abi": true, "time": false, "vendor/golang.org/x/net/http2/hpack": true,
+	"encoding/json": true, "mime": true, "net/textproto": true, "internal/testlog": true, "internal/syscall/unix": true,
+	"text/template": true, "html/template": true, "go/token": true, "regexp": true, "regexp/syntax": true, "unicode": true,
+	"github.com/klauspost/compress/zstd": true, "github.com/klauspost/compress/huff0": true, "github.com/klauspost/compress/fse": true,
+	"github.com/klauspost/compress/internal/cpuinfo": true, "github.com/klauspost/compress/flate": true, "compress/flate": true,
+	"golang.org/x/text/unicode/norm": true, "golang.org/x/text/secure/precis": true, "golang.org/x/text/unicode/bidi": true,
+	"golang.org/x/text/width": true, "golang.org/x/text/cases": true, "golang.org/x/text/language": true, "golang.org/x/text/internal/language": true,
+	"github.com/xdg-go/stringprep": true, "hash/crc32": true, "crypto/sha256": true, "crypto/sha512": true, "crypto/sha1": true, "crypto/md5": true, "crypto": true,
+}
+
+func (p *Program) runInits(verbose bool) error {
+	ex := &Exec{prog: p, tt: NewTermTable(), out: &ItemResult{Reached: map[string]int{}}}
+	ex.cfg = Config{Unwind: 1 << 30, MaxSteps: 1 << 40, TimeoutMs: 1000, SplitCap: 1, MaxAlloc: 1 << 26}
+	p.baseHeap = map[ObjID]Value{}
+	st := p.newState(ex)
+	// materialise the few runtime-provided globals that package inits read
+	if g := p.byPath["os"].Var("Args"); g != nil {
+		sl := st.makeSlice(StrVal{}, 1, 1)
+		sl.NonNil = true
+		st.sliceSet(sl, 0, StrVal{S: "/vh/prog"})
+		st.objSet(p.globalID(g), sl)
+	}
+	for _, sp := range p.initOrder() {
+		path := sp.Pkg.Path()
+		isRepo := strings.HasPrefix(path, repoPath)
+		if !isRepo {
+			if stdInitDeny[path] || strings.HasPrefix(path, "internal/") || strings.HasPrefix(path, "runtime/") || strings.HasPrefix(path, "vendor/") || strings.HasPrefix(path, "crypto/") || strings.HasPrefix(path, "golang.org/x/") {
+				continue
+			}
+		}
+		fn := sp.Func("init")
+		if fn == nil || fn.Blocks == nil {
+			continue
+		}
+		t0 := time.Now()
+		err := ex.runConcrete(st, fn)
+		if err != nil {
+			if isRepo {
+				return fmt.Errorf("init of %s: %v", path, err)
+			}
+			p.initLog = append(p.initLog, fmt.Sprintf("init %s: partial (%v)", path, err))
+			if verbose {
+				fmt.Fprintf(os.Stderr, "init %s: partial: %v\n", path, err)
+			}
+			// the state may be mid-call: reset coroutines
+		}
+		if verbose && time.Since(t0) > 200*time.Millisecond {
+			fmt.Fprintf(os.Stderr, "init %s: %.2fs\n", path, time.Since(t0).Seconds())
+		}
+	}
+	// freeze
+	for _, v := range st.heap.delta {
+		zeroOwners(v, 0)
+	}
+	p.baseHeap = st.heap.delta
+	p.baseNext = st.nextObj
+	p.baseSide = st.side
+	return nil
+}
+
+func zeroOwners(v Value, depth int) {
+	if depth > 6 {
+		return
+	}
+	switch x := v.(type) {
+	case *ArrVal:
+		x.owner = 0
+		if x.Elems != nil && x.N <= 4096 {
+			for _, e := range x.Elems {
+				switch e.(type) {
+				case *ArrVal, StructVal:
+					zeroOwners(e, depth+1)
+				}
+			}
+		}
+	case StructVal:
+		for _, f := range x {
+			switch f.(type) {
+			case *ArrVal, StructVal:
+				zeroOwners(f, depth+1)
+			}
+		}
+	}
+}
+
+// runConcrete runs fn (no params) to completion on st as coroutine 0; any fork or symbolic choice is an error.
+func (ex *Exec) runConcrete(st *State, fn *ssa.Function) (err error) {
+	st.coros = []*Coro{{id: 0, status: CoRunnable, name: "init"}}
+	st.cur = 0
+	st.done = false
+	st.fail = nil
+	st.steps = 0
+	defer func() {
+		if r := recover(); r != nil {
+			switch x := r.(type) {
+			case unsupported:
+				err = fmt.Errorf("unsupported: %s at %s", x.msg, st.where())
+			case pathEnd:
+				err = fmt.Errorf("path ended: %+v", st.fail)
+			default:
+				err = fmt.Errorf("engine panic: %v at %s", r, st.where())
+			}
+		}
+	}()
+	ex.pushFrame(st, fn, nil, nil, -1)
+	ex.work = nil
+	for !st.done {
+		ex.step(st)
+		if len(ex.work) > 0 {
+			ex.work = nil
+			return fmt.Errorf("fork during concrete execution at %s", st.where())
+		}
+	}
+	if st.fail != nil {
+		return fmt.Errorf("%s: %s", st.fail.Kind, st.fail.Msg)
+	}
+	return nil
+}
+
+// ---------- reporting ----------
+
+func report(p *Program, spec *PropSpec, results []*ItemResult, prop, tier string, seed int64, repo, scratch string, ov map[string][]byte, t0 time.Time, selfN int, noReplay, noEvidence bool) int {
+	known := loadKnown(filepath.Join(verifDir, "known_findings.json"))
+	var paths, pathsOK, asserts, proved, trivial, infeasible int
+	var instrs int64
+	var q SolverStats
+	var altQ SolverStats
+	var inconcl []string
+	var viols []Violation
+	var fatals []string
+	reached := map[string]int{}
+	funcs := map[string]int{}
+	var samples []interface{}
+	unknownBranches := 0
+	for _, r := range results {
+		if r == nil {
+			continue
+		}
+		paths += r.Paths
+		pathsOK += r.PathsOK
+		asserts += r.Asserts
+		proved += r.AssertsProved
+		trivial += r.AssertsTrivial
+		infeasible += r.Infeasible
+		instrs += r.Instrs
+		unknownBranches += r.UnknownBranch
+		q.Queries += r.Solver.Queries
+		q.SatN += r.Solver.SatN
+		q.UnsatN += r.Solver.UnsatN
+		q.UnknownN += r.Solver.UnknownN
+		q.Time += r.Solver.Time
+		altQ.Queries += r.AltSolver.Queries
+		altQ.Time += r.AltSolver.Time
+		for _, m := range r.Inconclusive {
+			inconcl = append(inconcl, fmt.Sprintf("%s%v: %s", r.Item.Spec.Func, r.Item.Args, m))
+		}
+		if r.InconclusiveMore > 0 {
+			inconcl = append(inconcl, fmt.Sprintf("%s%v: %d more", r.Item.Spec.Func, r.Item.Args, r.InconclusiveMore))
+		}
+		if r.Fatal != "" {
+			fatals = append(fatals, fmt.Sprintf("%s%v: %s", r.Item.Spec.Func, r.Item.Args, r.Fatal))
+		}
+		viols = append(viols, r.Violations...)
+		for k, v := range r.Reached {
+			reached[k] += v
+		}
+		for k, v := range r.Funcs {
+			funcs[k] += v
+		}
+		for _, s := range r.Samples {
+			if len(samples) < 6 {
+				samples = append(samples, s)
+			}
+		}
+	}
+	// vacuity: required witnesses
+	var missing []string
+	for _, h := range spec.Harnesses {
+		ran := false
+		for _, r := range results {
+			if r != nil && r.Item.Spec.Func == h.Func {
+				ran = true
+			}
+		}
+		if !ran {
+			continue
+		}
+		for _, w := range h.Reach {
+			if reached[w] == 0 {
+				missing = append(missing, h.Func+":"+w)
+			}
+		}
+	}
+	// replay counterexamples
+	replays := 0
+	var newViol, knownViol, spurious []Violation
+	for i := range viols {
+		v := &viols[i]
+		if k := matchKnown(known, prop, v); k != nil {
+			v.Status = "known"
+			v.Known = k.ID
+		}
+		h := findHarness(spec, v.Harness)
+		file := filepath.Join(verifDir, "replays", fmt.Sprintf("%s-%s-%s.json", prop, v.Harness, hashOf([]interface{}{v.Args, v.ID, v.Inputs})))
+		v.Replay = file
+		if v.Status == "known" {
+			knownViol = append(knownViol, *v)
+			continue
+		}
+		writeJSON(file, v)
+		if h != nil && h.Native && !noReplay {
+			ok, out := nativeReplay(repo, scratch, ov, v)
+			replays++
+			if ok {
+				v.Status = "reproduced"
+				newViol = append(newViol, *v)
+			} else {
+				v.Status = "spurious"
+				v.Msg += " || native replay: " + lastLines(out, 6)
+				spurious = append(spurious, *v)
+			}
+		} else {
+			v.Status = "engine-only"
+			newViol = append(newViol, *v)
+		}
+	}
+	// print known findings once per finding id
+	seenKnown := map[string]bool{}
+	for _, v := range knownViol {
+		if !seenKnown[v.Known] {
+			seenKnown[v.Known] = true
+			for _, k := range known {
+				if k.ID == v.Known {
+					fmt.Printf("KNOWN-FINDING: property=%s %s [%s] %s\n", prop, k.ID, v.Harness, k.What)
+				}
+			}
+		}
+	}
+	code := 0
+	for _, v := range newViol {
+		fmt.Printf("VIOLATION property=%s replay=%s\n", prop, v.Replay)
+		fmt.Printf("  harness=%s args=%v kind=%s id=%s status=%s\n  %s\n", v.Harness, v.Args, v.Kind, v.ID, v.Status, v.Msg)
+		code = 1
+	}
+	if code == 0 {
+		var reasons []string
+		for _, v := range spurious {
+			reasons = append(reasons, fmt.Sprintf("SPURIOUS counterexample (not reproduced natively; engine or stub wrong): %s %s %s", v.Harness, v.ID, v.Replay))
+		}
+		reasons = append(reasons, fatals...)
+		for _, m := range missing {
+			reasons = append(reasons, "vacuous: witness not reached: "+m)
+		}
+		if len(inconcl) > 0 {
+			n := len(inconcl)
+			if n > 8 {
+				inconcl = inconcl[:8]
+			}
+			reasons = append(reasons, fmt.Sprintf("%d inconclusive obligations, e.g. %s", n, strings.Join(inconcl, " ;; ")))
+		}
+		if paths == 0 {
+			reasons = append(reasons, "no path explored")
+		}
+		if len(reasons) > 0 {
+			code = 2
+			for _, r := range reasons {
+				fmt.Printf("INCONCLUSIVE property=%s reason=%s\n", prop, strings.ReplaceAll(r, "\n", " | "))
+			}
+		}
+	}
+	wall := time.Since(t0).Seconds()
+	if !noEvidence {
+		var fl []string
+		for k := range funcs {
+			if strings.Contains(k, "kafka-go") && !strings.Contains(k, ".VH_") && !strings.Contains(k, ".vh") && !strings.Contains(k, ".vref") {
+				fl = append(fl, k)
+			}
+		}
+		sort.Strings(fl)
+		if len(samples) == 0 {
+			samples = append(samples, map[string]interface{}{"note": "no satisfiable path witness sampled", "items": len(results)})
+		}
+		var items []map[string]interface{}
+		for _, r := range results {
+			if r == nil {
+				continue
+			}
+			items = append(items, map[string]interface{}{"harness": r.Item.Spec.Func, "args": r.Item.Args, "paths": r.Paths, "paths_ok": r.PathsOK, "asserts": r.Asserts, "asserts_proved_unsat": r.AssertsProved, "asserts_trivially_true": r.AssertsTrivial, "queries": r.Solver.Queries, "solver_s": r.Solver.Time.Seconds(), "wall_s": r.Wall.Seconds(), "violations": len(r.Violations), "inconclusive": len(r.Inconclusive)})
+		}
+		var hb []map[string]string
+		for _, h := range spec.Harnesses {
+			hb = append(hb, map[string]string{"harness": h.Func, "what": h.Desc, "bounds": h.Bounds})
+		}
+		ev := map[string]interface{}{
+			"property_id": prop,
+			"tier":        tier,
+			"seed":        seed,
+			"level":       "model_checking",
+			"coverage": map[string]interface{}{
+				"states":                        paths,
+				"transitions":                   instrs,
+				"traces_validated_against_impl": selfN + replays,
+				"samples":                       samples,
+				"explanation":                   "states = symbolic paths completed (each stands for every input satisfying its path condition); transitions = SSA instructions interpreted; traces_validated = self-test vectors run through both the native build and the interpreter, plus counterexamples replayed natively",
+				"symbolic_paths_ok":             pathsOK,
+				"infeasible_paths_pruned":       infeasible,
+				"assertions_checked":            asserts,
+				"assertions_proved_unsat":       proved,
+				"assertions_trivially_true":     trivial,
+				"work_items":                    items,
+				"reach_witnesses":               reached,
+				"functions_encoded":             fl,
+				"harnesses":                     hb,
+				"bounds":                        spec.Bounds,
+				"outside_bounds":                spec.Outside,
+				"queries":                       map[string]interface{}{"z3": map[string]int{"total": q.Queries, "sat": q.SatN, "unsat": q.UnsatN, "unknown": q.UnknownN}, "cvc5_as_int": map[string]int{"total": altQ.Queries}, "unknown_branch_kept": unknownBranches},
+				"solver_time_s":                 q.Time.Seconds() + altQ.Time.Seconds(),
+				"stubs_used":                    spec.Stubs,
+				"known_findings_matched":        keysOf(seenKnown),
+				"new_violations":                len(newViol),
+				"spurious":                      len(spurious),
+				"inconclusive":                  inconcl,
+				"exhaustive":                    false,
+			},
+			"assumptions": spec.Assume,
+			"wall_s":      wall,
+			"violations":  len(newViol),
+		}
+		writeJSON(filepath.Join(verifDir, "evidence", prop+".json"), ev)
+	}
+	if code == 0 {
+		fmt.Printf("OK property=%s tier=%s paths=%d assertions=%d (unsat %d, trivial %d) queries=%d solver=%.1fs wall=%.1fs known=%d\n", prop, tier, paths, asserts, proved, trivial, q.Queries, q.Time.Seconds(), wall, len(seenKnown))
+	}
+	return code
+}
+
+func keysOf(m map[string]bool) []string {
+	ks := []string{}
+	for k := range m {
+		ks = append(ks, k)
+	}
+	sort.Strings(ks)
+	return ks
+}
+
+func findHarness(spec *PropSpec, name string) *HarnessSpec {
+	for i := range spec.Harnesses {
+		if spec.Harnesses[i].Func == name {
+			return &spec.Harnesses[i]
+		}
+	}
+	return nil
+}
+
+func lastLines(s string, n int) string {
+	ls := strings.Split(strings.TrimSpace(s), "\n")
+	if len(ls) > n {
+		ls = ls[len(ls)-n:]
+	}
+	return strings.Join(ls, " | ")
+}
+
+// ---------- native replay ----------
+
+var harnessFuncRe = regexp.MustCompile(`(?m)^func (VH_\w+)\(([^)]*)\)`)
+
+func nativeReplay(repo, scratch string, ov map[string][]byte, v *Violation) (bool, string) {
+	dir := filepath.Join(scratch, fmt.Sprintf("replay-%d", time.Now().UnixNano()))
+	os.MkdirAll(dir, 0o755)
+	defer os.RemoveAll(dir)
+	pkgDir := "."
+	if v.Pkg != "" {
+		pkgDir = v.Pkg
+	}
+	// write overlay files to disk and build the overlay json
+	repl := map[string]string{}
+	i := 0
+	var registry strings.Builder
+	pkgName := ""
+	for path, content := range ov {
+		real := filepath.Join(dir, fmt.Sprintf("f%d.go", i))
+		i++
+		os.WriteFile(real, content, 0o644)
+		repl[path] = real
+		if filepath.Clean(filepath.Dir(path)) == filepath.Clean(filepath.Join(repo, pkgDir)) {
+			if m := pkgClause.FindSubmatch(content); m != nil {
+				pkgName = string(m[1])
+			}
+			for _, m := range harnessFuncRe.FindAllSubmatch(content, -1) {
+				name := string(m[1])
+				nparams := 0
+				if ps := strings.TrimSpace(string(m[2])); ps != "" {
+					for _, part := range strings.Split(ps, ",") {
+						_ = part
+						nparams++
+					}
+				}
+				var args []string
+				for k := 0; k < nparams; k++ {
+					args = append(args, fmt.Sprintf("a[%d]", k))
+				}
+				fmt.Fprintf(&registry, "\t%q: func(a []int) { %s(%s) },\n", name, name, strings.Join(args, ", "))
+			}
+		}
+	}
+	test := fmt.Sprintf("package %s\n\nimport \"testing\"\n\nvar vhHarnesses = map[string]func(a []int){\n%s}\n\nfunc TestVHReplay(t *testing.T) { vhReplayMain(t, vhHarnesses) }\n", pkgName, registry.String())
+	real := filepath.Join(dir, "replay_test.go")
+	os.WriteFile(real, []byte(test), 0o644)
+	repl[filepath.Join(repo, pkgDir, "zz_verif_replay_test.go")] = real
+	ovj, _ := json.Marshal(map[string]interface{}{"Replace": repl})
+	ovFile := filepath.Join(dir, "overlay.json")
+	os.WriteFile(ovFile, ovj, 0o644)
+	cex := filepath.Join(dir, "cex.json")
+	writeJSON(cex, v)
+	for _, f := range []string{"go.mod", "go.sum"} {
+		b, _ := os.ReadFile(filepath.Join(repo, f))
+		os.WriteFile(filepath.Join(dir, f), b, 0o644)
+	}
+	cmd := exec.Command("go", "test", "-overlay", ovFile, "-modfile", filepath.Join(dir, "go.mod"), "-mod=mod", "-vet=off", "-count=1", "-run", "^TestVHReplay$", "-timeout", "120s", "./"+pkgDir)
+	cmd.Dir = repo
+	cmd.Env = append(os.Environ(), "GOFLAGS=", "GOPROXY=off", "GOSUMDB=off", "GOTOOLCHAIN=local", "VH_REPLAY_FILE="+cex, "GOMEMLIMIT=2GiB")
+	out, _ := cmd.CombinedOutput()
+	s := string(out)
+	want := "VH-VIOLATION " + v.ID
+	switch v.Kind {
+	case "assert":
+		return strings.Contains(s, want+"\n") || strings.Contains(s, want+" "), s
+	case "panic":
+		return strings.Contains(s, "VH-PANIC"), s
+	case "unwind", "steplimit", "deadlock":
+		return strings.Contains(s, "VH-HANG") || strings.Contains(s, "test timed out") || strings.Contains(s, "VH-PANIC"), s
+	case "bigalloc", "splitcap":
+		return strings.Contains(s, "VH-BIGALLOC") || strings.Contains(s, "out of memory") || strings.Contains(s, "VH-PANIC") || strings.Contains(s, "cannot allocate"), s
+	}
+	return strings.Contains(s, "VH-VIOLATION") || strings.Contains(s, "VH-PANIC"), s
+}
